@@ -41,7 +41,7 @@ def lean_stage(prop, tier, translated=False):
         import py2lean
 
         def pre():
-            st, detail = (py2lean.main_coords() if translated == "coords" else py2lean.main())
+            st, detail = (py2lean.main_coords() if translated == "coords" else py2lean.main_kernels_and_trend())
             res["translator"] = st + (": " + detail if detail else "")
     ok, log = C.lake_build(targets, pre=pre)
     res["build_ok"] = ok
